@@ -7,10 +7,14 @@
 //!            scripted bytes and ends the connection by close (FIN) or SO_LINGER-0 close (RST)
 //!   server   a LIVE real server (own port, own cache dir, started by this process, killed by pid):
 //!            scripted byte chunks on several connections while a bystander client compiles through it
+//!   coldstart  no server on a fresh port; k real clients released together through a barrier; each must start /
+//!              find a server and deliver the compiler's true result
+//!   poison   one fresh real server; well-formed but unservable compile requests (real client or hand-built
+//!            frame) followed by ordinary requests for the same compiler from other connections
 //!   kill     a LIVE real server SIGKILLed at a scripted phase of a request (the wrapper compiler tells us
 //!            through a fifo that the phase has been reached), then a second compile with no server running
 use sccache::verif_hooks::protocol::{
-    verif_decode_request, verif_decode_response, verif_encode_request, CompileResponse, Request, Response,
+    verif_decode_request, verif_decode_response, verif_encode_request, Compile, CompileResponse, Request, Response,
 };
 use std::io::{Read, Write};
 use std::net::{TcpListener, TcpStream};
@@ -311,7 +315,7 @@ fn write_wrapper(dir: &Path) -> PathBuf {
     write_exec(
         &w,
         &format!(
-            "#!/bin/sh\nD='{d}'\nhas_e=0\nhas_src=0\nfor a in \"$@\"; do\n  case \"$a\" in\n    -E) has_e=1 ;;\n    *unit.c) has_src=1 ;;\n  esac\ndone\nphase=other\nif [ $has_e = 1 ] && [ $has_src = 0 ]; then phase=detect; fi\nif [ $has_e = 1 ] && [ $has_src = 1 ]; then phase=preprocess; fi\nif [ $has_e = 0 ] && [ $has_src = 1 ]; then phase=compile; fi\nT=\"${{C11_TAG:-x}}\"\necho \"$phase $PPID\" >> \"$D/phases.log\"\nif mv \"$D/arm-$phase-$T\" \"$D/fired-$phase-$T\" 2>/dev/null; then\n  echo \"$$\" > \"$D/fifo\"\n  exec sleep 600\nfi\nexec /usr/bin/gcc \"$@\"\n",
+            "#!/bin/sh\nD='{d}'\nif [ -n \"$C11_FAIL\" ]; then echo 'wrapper: told to fail' >&2; exit 1; fi\nhas_e=0\nhas_src=0\nfor a in \"$@\"; do\n  case \"$a\" in\n    -E) has_e=1 ;;\n    *unit.c) has_src=1 ;;\n  esac\ndone\nphase=other\nif [ $has_e = 1 ] && [ $has_src = 0 ]; then phase=detect; fi\nif [ $has_e = 1 ] && [ $has_src = 1 ]; then phase=preprocess; fi\nif [ $has_e = 0 ] && [ $has_src = 1 ]; then phase=compile; fi\nT=\"${{C11_TAG:-x}}\"\necho \"$phase $PPID\" >> \"$D/phases.log\"\nif mv \"$D/arm-$phase-$T\" \"$D/fired-$phase-$T\" 2>/dev/null; then\n  echo \"$$\" > \"$D/fifo\"\n  exec sleep 600\nfi\nexec /usr/bin/gcc \"$@\"\n",
             d = dir.display()
         ),
     );
@@ -327,7 +331,16 @@ fn server_env(c: &mut Command, dir: &Path, port: u16, cap: u64) {
 
 fn start_server(cap: u64) -> Option<Live> {
     for _ in 0..20 {
-        let dir = scratch("vh-c11s-");
+        if let Ok(l) = start_server_in(scratch("vh-c11s-"), cap) {
+            return Some(l);
+        }
+    }
+    None
+}
+
+/// One attempt, in a given scratch directory (handed back when the port was lost to somebody else).
+fn start_server_in(dir: tempfile::TempDir, cap: u64) -> Result<Live, tempfile::TempDir> {
+    {
         let port = free_port();
         // the server itself tells us (SCCACHE_STARTUP_NOTIFY) whether it bound the port: nobody else's
         // listener on the same port can be mistaken for it
@@ -374,12 +387,13 @@ fn start_server(cap: u64) -> Option<Live> {
         }
         if up {
             let wrapper = write_wrapper(dir.path());
-            return Some(Live { child, port, cap, dir, wrapper });
+            return Ok(Live { child, port, cap, dir, wrapper });
         }
         let _ = child.kill();
         let _ = child.wait(); // lost the port to somebody else (or failed to start): try another one
+        let _ = std::fs::remove_file(&sock);
+        Err(dir)
     }
-    None
 }
 
 impl Live {
@@ -795,6 +809,300 @@ fn run_kill_case(case: &Sx) -> Sx {
     Sx::L(fields)
 }
 
+// ------------------------------------------------------------------ leg coldstart
+
+fn mkfifo(path: &Path) {
+    let c = std::ffi::CString::new(path.as_os_str().as_bytes()).unwrap();
+    unsafe {
+        libc::mkfifo(c.as_ptr(), 0o600);
+    }
+}
+
+fn open_rdwr_nonblock(path: &Path) -> std::fs::File {
+    use std::os::unix::fs::OpenOptionsExt;
+    std::fs::OpenOptions::new()
+        .read(true)
+        .write(true)
+        .custom_flags(libc::O_NONBLOCK)
+        .open(path)
+        .expect("open fifo")
+}
+
+fn start_class(err: &str) -> &'static str {
+    // what connect_or_start_server went through, from the client's own trace output
+    if err.contains("AddrInUse") || err.contains("Address in use") {
+        "addr_in_use"
+    } else if err.contains("Timed out waiting for server startup") {
+        "timed_out"
+    } else if err.contains("Server startup failed") {
+        "start_err"
+    } else if err.contains("Connection to server timed out") {
+        "no_listener"
+    } else if err.contains("run_server_process") {
+        "started"
+    } else {
+        "existing"
+    }
+}
+
+fn run_coldstart_case(case: &Sx) -> Sx {
+    let k = case.arg(0).u64() as usize;
+    let after_kill = case.arg(1).as_bool();
+    let dir = scratch("vh-c11s-");
+    let d = dir.path().to_path_buf();
+    let mut port = free_port();
+    if after_kill {
+        // a server that was there and is gone (SIGKILL): same port, same cache directory
+        match start_server_in(dir, DEFAULT_CAP_BYTES) {
+            Ok(mut l) => {
+                port = l.port;
+                let _ = l.child.kill();
+                let _ = l.child.wait();
+                // keep the directory: `l.dir` is moved back out
+                let Live { dir: dd, .. } = l;
+                return coldstart_clients(dd, port, k);
+            }
+            Err(dd) => return coldstart_clients(dd, port, k),
+        }
+    }
+    let _ = d;
+    coldstart_clients(dir, port, k)
+}
+
+const DEFAULT_CAP_BYTES: u64 = 8 * 1024 * 1024;
+
+fn coldstart_clients(dir: tempfile::TempDir, port: u16, k: usize) -> Sx {
+    let d = dir.path().to_path_buf();
+    let ready = d.join("ready");
+    let go = d.join("go");
+    mkfifo(&ready);
+    mkfifo(&go);
+    let mut ready_f = open_rdwr_nonblock(&ready);
+    let mut go_f = open_rdwr_nonblock(&go);
+    let mut refs = vec![];
+    let mut children = vec![];
+    for i in 0..k {
+        let work = d.join(format!("w{i}"));
+        refs.push(make_unit(&work, 100 + i as u64));
+        // sh announces itself, waits for the common release, then BECOMES the client (same pid)
+        let mut c = Command::new("/bin/sh");
+        c.env_clear()
+            .env("PATH", "/usr/local/bin:/usr/bin:/bin")
+            .env("HOME", &d)
+            .env("SCCACHE_CONF", d.join("no-such-config"))
+            .env("SCCACHE_CACHED_CONF", d.join("cached-config"))
+            .env("TERM", "dumb")
+            .env("SCCACHE_LOG", "sccache::commands=trace")
+            .env("SCCACHE_IDLE_TIMEOUT", "60");
+        server_env(&mut c, &d, port, DEFAULT_CAP_BYTES);
+        c.env("SCCACHE_IDLE_TIMEOUT", "60")
+            .current_dir(&work)
+            .arg("-c")
+            .arg("echo r > \"$1\"; read _ < \"$2\"; shift 2; exec \"$@\"")
+            .arg("sh")
+            .arg(&ready)
+            .arg(&go)
+            .arg(sccache_bin())
+            .args(["/usr/bin/gcc", "-c", "unit.c", "-o", "unit.o"])
+            .stdin(Stdio::null())
+            .stdout(Stdio::null())
+            .stderr(Stdio::from(std::fs::File::create(work.join("stderr.txt")).unwrap()));
+        children.push((work, c.spawn().expect("spawn client shell")));
+    }
+    // barrier: all k are parked on `read`
+    let t0 = Instant::now();
+    let mut got = 0usize;
+    let mut buf = [0u8; 256];
+    while got < k && t0.elapsed() < FAILSAFE {
+        match ready_f.read(&mut buf) {
+            Ok(n) if n > 0 => got += buf[..n].iter().filter(|&&b| b == b'\n').count(),
+            _ => std::thread::sleep(Duration::from_millis(1)),
+        }
+    }
+    let _ = go_f.write_all("g\n".repeat(k).as_bytes());
+    let mut rows = vec![];
+    for (i, (work, mut ch)) in children.into_iter().enumerate() {
+        let code = wait_child(&mut ch, Duration::from_secs(120));
+        let err = std::fs::read_to_string(work.join("stderr.txt")).unwrap_or_default();
+        let ok = std::fs::read(work.join("unit.o")).map(|o| o == refs[i]).unwrap_or(false);
+        let kind = if err.contains("compiling locally instead") {
+            "local"
+        } else if err.contains("sccache: error") {
+            "error"
+        } else {
+            "finished"
+        };
+        rows.push(Sx::L(vec![
+            Sx::sym(start_class(&err)),
+            Sx::sym(kind),
+            code.map(|c| Sx::N(c as u32 as u128 & 0xffff)).unwrap_or(Sx::sym("hung")),
+            Sx::bool(ok),
+        ]));
+    }
+    let mut stop = base_cmd(&d);
+    server_env(&mut stop, &d, port, DEFAULT_CAP_BYTES);
+    let _ = stop.arg("--stop-server").stdout(Stdio::null()).stderr(Stdio::null()).status();
+    scan_and_kill_everything(&d);
+    drop(ready_f);
+    drop(go_f);
+    Sx::L(rows)
+}
+
+// ------------------------------------------------------------------ leg poison
+
+fn answer_of_client(o: &Observed) -> String {
+    if o.kind == "finished" && o.code == 0 && o.obj_ok {
+        "served".into()
+    } else if o.kind == "error" && o.why == "unsupported" && o.code == 2 {
+        "unsupported".into()
+    } else if o.kind == "finished" && o.code != 0 {
+        "failed".into()
+    } else {
+        format!("other_{}_{}_{}_{}", o.kind, o.why, o.code, o.obj_ok)
+    }
+}
+
+/// One hand-built Request::Compile on its own connection; the answer in the same vocabulary.
+fn frame_compile(port: u16, exe: &Path, cwd: &Path, extra_env: &[(&str, &str)], reference: Option<&[u8]>) -> String {
+    let mut env: Vec<(std::ffi::OsString, std::ffi::OsString)> =
+        vec![("PATH".into(), "/usr/local/bin:/usr/bin:/bin".into())];
+    for (k, v) in extra_env {
+        env.push((k.into(), v.into()));
+    }
+    let req = Request::Compile(Compile {
+        exe: exe.as_os_str().to_owned(),
+        cwd: cwd.as_os_str().to_owned(),
+        args: vec!["-c".into(), "unit.c".into(), "-o".into(), "unit.o".into()],
+        env_vars: env,
+    });
+    let mut s = match TcpStream::connect(("127.0.0.1", port)) {
+        Ok(s) => s,
+        Err(_) => return "other_no_connection".into(),
+    };
+    s.set_read_timeout(Some(FAILSAFE)).unwrap();
+    if s.write_all(&frame(&verif_encode_request(&req))).is_err() {
+        return "other_write_failed".into();
+    }
+    match read_frame(&mut s).and_then(|p| verif_decode_response(&p)) {
+        Some(Response::Compile(CompileResponse::UnsupportedCompiler(_))) => "unsupported".into(),
+        Some(Response::Compile(CompileResponse::UnhandledCompile)) => "other_unhandled".into(),
+        Some(Response::Compile(CompileResponse::CompileStarted)) => {
+            match read_frame(&mut s).and_then(|p| verif_decode_response(&p)) {
+                Some(Response::CompileFinished(f)) => {
+                    let ok = reference
+                        .map(|r| std::fs::read(cwd.join("unit.o")).map(|o| o == r).unwrap_or(false))
+                        .unwrap_or(false);
+                    if f.retcode == Some(0) && ok {
+                        "served".into()
+                    } else if f.retcode != Some(0) {
+                        "failed".into()
+                    } else {
+                        "other_retcode0_bad_object".into()
+                    }
+                }
+                _ => "other_no_compile_finished".into(),
+            }
+        }
+        Some(_) => "other_response".into(),
+        None => "other_closed".into(),
+    }
+}
+
+fn run_poison_case(case: &Sx) -> Sx {
+    let srv = match start_server(DEFAULT_CAP_BYTES) {
+        Some(s) => s,
+        None => return Sx::L(vec![Sx::sym("harness_problem"), Sx::sym("server_did_not_start")]),
+    };
+    let d = srv.dir.path().to_path_buf();
+    let cc: PathBuf = if case.arg(0).is_sym("real") { "/usr/bin/gcc".into() } else { srv.wrapper.clone() };
+    let log_path = d.join("phases.log");
+    let mut out = vec![];
+    let mut nwork = 0u64;
+    for st in case.arg(1).list() {
+        let mut answers: Vec<String> = vec![];
+        if st.arg(0).is_sym("bad") {
+            let how = st.arg(1).str();
+            let via_frame = st.arg(2).is_sym("frame");
+            nwork += 1;
+            let work = d.join(format!("b{nwork}"));
+            let reference = make_unit(&work, 200 + nwork);
+            let mut exe = cc.clone();
+            let mut cwd = work.clone();
+            let mut extra: Vec<(&str, &str)> = vec![];
+            match how.as_str() {
+                "gcc_exec_prefix" => extra.push(("GCC_EXEC_PREFIX", "/nonexistent/")),
+                "wrapper_fail" => extra.push(("C11_FAIL", "1")),
+                "bad_cwd" => cwd = d.join("no-such-directory"),
+                "unsupported_exe" => exe = "/bin/true".into(),
+                "nonexistent_exe" => exe = d.join("no-such-compiler"),
+                "broken_exe" => write_exec(&cc, "#!/bin/sh\nexit 1\n"),
+                _ => {}
+            }
+            if via_frame {
+                answers.push(frame_compile(srv.port, &exe, &cwd, &extra, Some(&reference)));
+            } else {
+                let mut c = base_cmd(&d);
+                server_env(&mut c, &d, srv.port, srv.cap);
+                for (k, v) in &extra {
+                    c.env(k, v);
+                }
+                c.current_dir(&work)
+                    .arg(&exe)
+                    .args(["-c", "unit.c", "-o", "unit.o"])
+                    .stdout(Stdio::piped())
+                    .stderr(Stdio::piped());
+                match c.spawn() {
+                    Ok(ch) => match observe_client(ch, &log_path, &work, &reference) {
+                        Some(o) => answers.push(answer_of_client(&o)),
+                        None => answers.push("other_hung".into()),
+                    },
+                    Err(_) => answers.push("other_spawn_failed".into()),
+                }
+            }
+            if how == "broken_exe" {
+                write_wrapper(&d); // the compiler is repaired (new mtime)
+            }
+        } else {
+            let via_frame = st.arg(1).is_sym("frame");
+            let n = st.arg(2).u64();
+            let mut works = vec![];
+            for _ in 0..n {
+                nwork += 1;
+                let work = d.join(format!("g{nwork}"));
+                let reference = make_unit(&work, 300 + nwork);
+                works.push((work, reference));
+            }
+            if via_frame {
+                for (work, reference) in &works {
+                    answers.push(frame_compile(srv.port, &cc, work, &[], Some(reference)));
+                }
+            } else {
+                // the ordinary clients run concurrently, each on its own connection
+                let mut chs = vec![];
+                for (work, _) in &works {
+                    let mut c = base_cmd(&d);
+                    server_env(&mut c, &d, srv.port, srv.cap);
+                    c.current_dir(work)
+                        .arg(&cc)
+                        .args(["-c", "unit.c", "-o", "unit.o"])
+                        .stdout(Stdio::piped())
+                        .stderr(Stdio::piped());
+                    chs.push(c.spawn().expect("spawn ordinary client"));
+                }
+                for (ch, (work, reference)) in chs.into_iter().zip(works.iter()) {
+                    match observe_client(ch, &log_path, work, reference) {
+                        Some(o) => answers.push(answer_of_client(&o)),
+                        None => answers.push("other_hung".into()),
+                    }
+                }
+            }
+        }
+        out.push(Sx::L(answers.iter().map(|a| Sx::sym(a)).collect()));
+    }
+    srv.stop();
+    Sx::L(out)
+}
+
 fn main() {
     vh::quiet_panics();
     let leg = std::env::args().nth(1).unwrap_or_default();
@@ -808,6 +1116,10 @@ fn main() {
         "server" => vh::catch(|| run_server_case(&mut live, &mut counter, case))
             .unwrap_or_else(|e| Sx::L(vec![Sx::sym("harness_panic"), Sx::B(e.into_bytes())])),
         "kill" => vh::catch(|| run_kill_case(case))
+            .unwrap_or_else(|e| Sx::L(vec![Sx::sym("harness_panic"), Sx::B(e.into_bytes())])),
+        "coldstart" => vh::catch(|| run_coldstart_case(case))
+            .unwrap_or_else(|e| Sx::L(vec![Sx::sym("harness_panic"), Sx::B(e.into_bytes())])),
+        "poison" => vh::catch(|| run_poison_case(case))
             .unwrap_or_else(|e| Sx::L(vec![Sx::sym("harness_panic"), Sx::B(e.into_bytes())])),
         _ => Sx::L(vec![Sx::sym("unknown_leg")]),
     });
